@@ -7,7 +7,7 @@ import ast
 from .. import flow as flw
 from ..dataflow import origins
 from ..layout import has_reversal, reshape_sites
-from ..model import calls_in, unparse
+from ..model import calls_in, unparse, walk_no_nested
 from ..norm import Normalizer, calls_to, mentions_name, show, subterms
 from ..rules import (calls_from, expand_at, path_conds, r_bind_literal, r_effect_free, r_live, r_thread, value_at)
 
@@ -209,6 +209,29 @@ def run(ctx):
             ctx.ob("R-SIB", ps, "sparse/dense-gather-agree", len(names) == 1,
                    f"{len(rows)} row gather(s) all index with `{sorted(names)[0]}`" if len(names) == 1 else
                    f"row gathers use different index vectors {sorted(names)}", rows[0][2])
+    # selection-matrix form of the gather: G = sparse((1, (R, C))) and G @ X gives Y[R[k]] = X[C[k]]; a gather Y[k] = X[p[k]]
+    # needs R = identity index, C = p.  With R = p, C = identity it is the scatter Y[p[k]] = X[k], i.e. the INVERSE permutation.
+    perm_names = {_assigned_name(ps.node, c) for c, _ in rec} - {None}
+    ident_names = set()
+    for n in walk_no_nested(ps.node):
+        if isinstance(n, ast.Assign) and len(n.targets) == 1 and isinstance(n.targets[0], ast.Name):
+            t = N(n.value)
+            if "builtins.range" in repr(t) or "numpy.arange" in repr(t):
+                if not any(nm in repr(t) for nm in perm_names):
+                    ident_names.add(n.targets[0].id)
+    for n in walk_no_nested(ps.node):
+        if isinstance(n, ast.Call) and getattr(n.func, "attr", getattr(n.func, "id", "")) in ("csr_matrix", "coo_matrix", "csc_matrix", "coo_array", "csr_array", "csc_array") and n.args \
+                and isinstance(n.args[0], ast.Tuple) and len(n.args[0].elts) == 2 and isinstance(n.args[0].elts[1], ast.Tuple) and len(n.args[0].elts[1].elts) == 2:
+            R, C = n.args[0].elts[1].elts
+            rn, cn = (R.id if isinstance(R, ast.Name) else None), (C.id if isinstance(C, ast.Name) else None)
+            if rn in perm_names and (cn in ident_names or isinstance(C, ast.Call)):
+                ctx.ob("R-PAIR", ps, "selection matrix gathers (rows = identity index, columns = permutation index)", False,
+                       f"`{unparse(n)[:80]}` puts the permutation index `{rn}` on the ROW side: G @ X then scatters (Y[p[k]] = X[k]), which is the inverse permutation -- "
+                       "sparse inputs are permuted differently from dense ones whenever the index map is not an involution", n)
+            elif cn in perm_names and (rn in ident_names or isinstance(R, ast.Call)):
+                ctx.ob("R-PAIR", ps, "selection matrix gathers (rows = identity index, columns = permutation index)", True, f"G[k, {cn}[k]] = 1", n)
+            else:
+                ctx.ob("R-PAIR", ps, "selection matrix gathers (rows = identity index, columns = permutation index)", None, f"`{unparse(n)[:60]}` not recognised", n, required=False)
     # row_only governs the column gather
     cg = [g for g in _gather_nodes(ps.node) if g[1] == 1 and g[0] in {_assigned_name(ps.node, c) for c, _ in rec}]
     if cg:
